@@ -95,15 +95,11 @@ theorem claim_data_retained (P : Params S) (seed : S) (bodies : List Body) (pend
       simp only [m, monitorAfter, provideCommitment]
       rw [htlcsOf_insert]; simp
 
-/-- a commitment body whose HTLC list and outputs agree (the tx builder's contract, re-checked on
-    every real commitment by the c06justice harness): every HTLC carrying an output index points at
-    an `htlc` output of its own value, and every `htlc` output is pointed at by a listed HTLC -/
-def Body.WF (b : Body) : Prop :=
-  (∀ h ∈ b.htlcs, ∀ i, h.outIdx = some i → b.outputs[i]? = some (h.sat, .htlc)) ∧
-  (∀ i sat, b.outputs[i]? = some (sat, .htlc) → ∃ h ∈ b.htlcs, h.outIdx = some i)
-
-/-- **revoked_fully_claimed** — for every history, every REVOKED commitment `j` of it (however
-    old), every set `second` of the cheater's second-stage transactions confirmed on top (each a
+/-- **revoked_fully_claimed_partial** — MISSING for the unconditional statement: nothing but the
+    hypothesis `Body.WF b` (HTLC indices consistent with the outputs), which `revoked_fully_claimed`
+    below discharges for every commitment laid out by `Spec.body`; this form is kept because it
+    covers ANY output order (the real one is BIP-69).  For every history of arbitrary bodies, every
+    REVOKED commitment `j` of it (however old), every set `second` of the cheater's second-stage transactions confirmed on top (each a
     list of the commitment outputs it spends): when the cheater's transaction for `j` confirms,
     (1) the claims made directly on it are exactly its `to_local` output(s) followed by one claim
         per listed HTLC with an output index;
@@ -111,7 +107,7 @@ def Body.WF (b : Body) : Prop :=
         confirmed second-stage transaction; (3) for every input of every such second-stage
         transaction the output at the same index is claimed instead; (4) nothing else on the
         commitment — not the victim's `to_remote`, not an anchor — is claimed. -/
-theorem revoked_fully_claimed (P : Params S) (seed : S) (bodies : List Body) (pending : Option Body)
+theorem revoked_fully_claimed_partial (P : Params S) (seed : S) (bodies : List Body) (pending : Option Body)
     (hlen : bodies.length + (if pending.isSome then 1 else 0) ≤ 2 ^ P.B) (j : Nat) (hj : j + 1 < bodies.length) (b : Body)
     (hb : bodies[j]? = some b) (hwf : Body.WF b) (second : List (List Nat)) :
     let m := monitorAfter P seed bodies pending
@@ -195,6 +191,34 @@ theorem revoked_fully_claimed (P : Params S) (seed : S) (bodies : List Body) (pe
           exact ⟨h'.sat, .htlc, hwf.1 h' hh _ ho, Or.inr rfl⟩
     · exact absurd hi (commit_not_mem_allSecondClaims 0 second i)
 
+/-- **revoked_fully_claimed** — for EVERY channel history `specs` (any number of commitments up to
+    the 2^B numbers; any balances above or below dust; anchors or not; any HTLC list — amounts,
+    directions, CLTVs, dust or not), optionally one more commitment `pending` not yet revoked, EVERY
+    revoked commitment `j` of it however old, and EVERY set `second` of the cheater's second-stage
+    transactions confirmed on top: when the cheater's transaction for `j` confirms,
+    (1) the claims made directly on it are exactly its `to_local` output followed by one claim per
+        non-dust HTLC; (2) every `to_local` / HTLC output of the transaction is claimed or was spent
+    by a confirmed second-stage transaction; (3) for every input of every such second-stage
+    transaction the output at the same index is claimed instead; (4) nothing else — not the victim's
+    own `to_remote`, not an anchor — is claimed. -/
+theorem revoked_fully_claimed (P : Params S) (seed : S) (specs : List Spec) (pending : Option Spec)
+    (hlen : specs.length + (if pending.isSome then 1 else 0) ≤ 2 ^ P.B) (j : Nat) (hj : j + 1 < specs.length)
+    (sp : Spec) (hsp : specs[j]? = some sp) (second : List (List Nat)) :
+    let m := monitorAfter P seed (specs.map Spec.body) (pending.map Spec.body)
+    let n := numberOf P j
+    let b := sp.body
+    let tx : List (TxOut S) := b.tx (secretOf P seed n)
+    let claims := punish P m n tx second
+    onConfirmRevoked P m n tx =
+        toLocalClaims (secretOf P seed n) tx ++ b.htlcs.filterMap (fun h => h.outIdx.map Outpoint.commit) ∧
+    (∀ i sat k, b.outputs[i]? = some (sat, k) → k = .toLocal ∨ k = .htlc →
+        .commit i ∈ claims ∨ ∃ t ∈ second, i ∈ t) ∧
+    (∀ k t p, second[k]? = some t → p < t.length → .second k p ∈ claims) ∧
+    (∀ i, .commit i ∈ claims → ∃ sat k, b.outputs[i]? = some (sat, k) ∧ (k = .toLocal ∨ k = .htlc)) := by
+  have h := revoked_fully_claimed_partial P seed (specs.map Spec.body) (pending.map Spec.body)
+    (by cases pending <;> simpa using hlen) j (by simpa using hj) sp.body (by simp [hsp]) (Spec.body_wf sp) second
+  exact h
+
 /-- **bump_progress** — the next fee-bump height of ANY package (any input list, any
     counterparty-spendable height) at ANY height `h` is strictly in the future and at most
     `LOW_FREQUENCY_BUMP_INTERVAL` away; the per-deadline timer is monotone in the deadline; and a
@@ -212,22 +236,23 @@ theorem bump_progress (h csh : Nat) (inputs : List PkgInput) :
         getHeightTimer h csh inputs ≤ h + MIDDLE_FREQUENCY_BUMP_INTERVAL) :=
   bump_progress_core h csh inputs
 
-/-- **feerate_bump_monotone** — whenever `feerate_bump` answers `(fee', rate')` for a transaction
-    of weight `w ≥ 4` (every transaction weighs more; see the counter-example below for `w < 4`):
-    (a) `rate' ≥` the previous feerate;
+/-- **feerate_bump_monotone** — whenever `feerate_bump` answers `(fee', rate')`:
+    (a) `rate' ≥` the previous feerate, for every transaction weight `w ≥ 4` (every real transaction
+        weighs hundreds of WU; for `w < 4` integer division makes the re-derived feerate collapse —
+        counter-example among the non-vacuity examples below — so the bound is tight);
     (b) either this is a plain re-broadcast (`rate'` = previous feerate and `fee'` = previous fee)
         or a replacement whose absolute fee is at least the previous fee PLUS the relay increment
         `INCREMENTAL_RELAY_FEE_SAT_PER_1000_WEIGHT·w/1000` (BIP-125 rules 3 and 4) and which leaves
         at least the dust limit to the output;
     (c) a `ForceBump` of a feerate ≥ 4 sat/kW is always such a replacement. -/
 theorem feerate_bump_monotone (w inp dust prev : Nat) (s : FeerateStrategy) (est fee' rate' : Nat)
-    (hw : 4 ≤ w) (h : feerateBump w inp dust prev s est = some (fee', rate')) :
-    prev ≤ rate' ∧
+    (h : feerateBump w inp dust prev s est = some (fee', rate')) :
+    (4 ≤ w → prev ≤ rate') ∧
     ((rate' = prev ∧ fee' = prev * w / 1000) ∨
      (prev * w / 1000 + INCREMENTAL_RELAY_FEE_SAT_PER_1000_WEIGHT * w / 1000 ≤ fee' ∧ dust ≤ inp - fee')) ∧
     (s = .forceBump → 4 ≤ prev →
       prev * w / 1000 + INCREMENTAL_RELAY_FEE_SAT_PER_1000_WEIGHT * w / 1000 ≤ fee') :=
-  feerate_bump_monotone_core w inp dust prev s est fee' rate' hw h
+  feerate_bump_monotone_core w inp dust prev s est fee' rate' h
 
 /-- **feerate_bump_none_only_if_unpayable** — `feerate_bump` gives up (`None`) only when the inputs
     cannot pay: half of the spent amount does not reach the feerate floor on this weight, or the
@@ -278,6 +303,12 @@ example : onConfirmRevoked P3 (monitorAfter P3 .seed hist none) (numberOf P3 1) 
 -- sources are pruned, data stays
 example : (monitorAfter P3 .seed hist none).claimable.get (numberOf P3 1) =
     some [(⟨2000999, true, 500, some 1⟩, false), (⟨100000, false, 510, none⟩, false), (⟨3000000, false, 520, some 2⟩, false)] := by decide
+-- the same through the layout of `Spec.body` (to_remote, 2 anchors, 2 non-dust HTLCs around a dust one, to_local)
+def sp1 : Spec := { toLocalSat := some 80000, toRemoteSat := some 5000, anchors := true, htlcs := [⟨2000999, true, 500, true⟩, ⟨100000, false, 510, false⟩, ⟨3000000, false, 520, true⟩] }
+def sp0 : Spec := { toLocalSat := some 90000, toRemoteSat := none, anchors := false, htlcs := [] }
+example : sp1.body.htlcs.map (·.outIdx) = [some 3, none, some 4] ∧ sp1.body.outputs.length = 6 := by decide
+example : punish P3 (monitorAfter P3 .seed ([sp0, sp1, sp0].map Spec.body) none) (numberOf P3 1)
+    (sp1.body.tx (secretOf P3 .seed (numberOf P3 1))) [[4]] = [.commit 5, .commit 3, .second 0 0] := by decide
 -- bump timer and fee bump
 example : getHeightTimer 100 120 [.revokedOutput] = 115 ∧ getHeightTimer 100 110 [.revokedOutput] = 103 ∧
     getHeightTimer 100 102 [.revokedHTLCOutput, .revokedOutput] = 101 ∧ getHeightTimer 100 0 [.revokedHTLCOutput] = 115 := by decide
